@@ -857,6 +857,32 @@ theorem reparsed_invoice_signs_to_ascending_stream (b : List UInt8) (rs : List R
   · have h' : ¬ (r.ty ≤ Ldk.Merkle.sigTypesHi) := by simp only [Ldk.Merkle.sigTypesHi]; omega
     simp [Ldk.Merkle.isSig, h']
 
+/-- `Unsigned*::write ∘ Unsigned*::try_from = id` (KF-C18-2, fixed in f3513c1): whatever the split
+    range cuts, the translated write plan of `impl Writeable for UnsignedInvoiceRequest` writes both
+    halves in order, so a re-parsed unsigned request serialises to exactly the bytes it was parsed from
+    (the bytes the tagged hash covers) — for EVERY well-formed stream.  With the old one-statement
+    `write` the plan is `[.bytes]` and this does not hold. -/
+theorem unsigned_invreq_write_is_parsed_bytes (b : List UInt8) (rs : List Rec) (hparse : parseStream b = some rs) :
+    rewriteUnsigned invreqSplitIn invreqUnsignedWrite b = some b := by
+  simp [rewriteUnsigned, reparseSplit, hparse, writeUnsigned, invreqUnsignedWrite]
+
+/-- the same for `impl Writeable for UnsignedBolt12Invoice` -/
+theorem unsigned_invoice_write_is_parsed_bytes (b : List UInt8) (rs : List Rec) (hparse : parseStream b = some rs) :
+    rewriteUnsigned invoiceSplitIn invoiceUnsignedWrite b = some b := by
+  simp [rewriteUnsigned, reparseSplit, hparse, writeUnsigned, invoiceUnsignedWrite]
+
+example : rewriteUnsigned invreqSplitIn invreqUnsignedWrite [88, 1, 3, 89, 1, 66, 0xfe, 0x77, 0x35, 0x94, 0x01, 1, 9]
+    = some [88, 1, 3, 89, 1, 66, 0xfe, 0x77, 0x35, 0x94, 0x01, 1, 9] := by decide
+
+/-- the unsigned bytes a remote signer receives are the stream `try_from` split: written = `bytes ‖ experimental_bytes` -/
+theorem unsigned_write_is_both_halves (p : Nat → Bool) (b x e : List UInt8) (h : reparseSplit p b = some (x, e)) :
+    writeUnsigned invreqUnsignedWrite (x, e) = x ++ e ∧ writeUnsigned invoiceUnsignedWrite (x, e) = x ++ e ∧ x ++ e = b := by
+  refine ⟨by simp [writeUnsigned, invreqUnsignedWrite], by simp [writeUnsigned, invoiceUnsignedWrite], ?_⟩
+  unfold reparseSplit at h
+  split at h
+  · cases h
+  · cases h; exact List.take_append_drop _ _
+
 /-- non-vacuity: payer metadata, payer id 88, PAYER NOTE 89, an experimental record; signature 240 -/
 example : signReparsed invreqSplitIn [0, 1, 5, 88, 1, 3, 89, 1, 66, 0xfe, 0x77, 0x35, 0x94, 0x01, 1, 9] [240, 1, 7]
     = some [0, 1, 5, 88, 1, 3, 89, 1, 66, 240, 1, 7, 0xfe, 0x77, 0x35, 0x94, 0x01, 1, 9] := by decide
